@@ -56,6 +56,7 @@ fn gen_scenario(seed: u64) -> Scenario {
     s.nargs = if s.build_phase { 3 } else { 2 };
     s.platform_present = true;
     s.build.kind = BuildKind::Ok;
+    s.preexisting.retain(|(_, d)| d != c05::PREEXISTING_DIR);
     if let Some(l) = s.build.launch.as_mut() {
         for p in &mut l.processes {
             if p.workdir.as_deref() == Some(super::script::WORKDIR_NOT_UTF8) {
